@@ -459,20 +459,17 @@ register_internal (GIRepository *repository,
     }
   else
     {
-      gpointer value;
       char *key;
 
       /* First, try loading all the dependencies */
       if (!load_dependencies_recurse (repository, typelib, error))
 	return NULL;
 
-      /* Check if we are transitioning from lazily loaded state */
-      if (g_hash_table_lookup_extended (repository->priv->lazy_typelibs,
-					namespace,
-					(gpointer)&key, &value))
-	g_hash_table_remove (repository->priv->lazy_typelibs, key);
-      else
-	key = build_typelib_key (namespace, source);
+      /* Check if we are transitioning from lazily loaded state; the lazy
+       * table owns (and frees) its key, which also names the source the
+       * lazily loaded typelib came from, so build a new one */
+      g_hash_table_remove (repository->priv->lazy_typelibs, namespace);
+      key = build_typelib_key (namespace, source);
 
       g_hash_table_insert (repository->priv->typelibs, key, (void *)typelib);
     }
